@@ -40,11 +40,11 @@ KNOWN = {
 }
 
 
-def repeat_all(mods_list, n, procs, workers=8):
+def repeat_all(mods_list, n, procs, workers=8, timeout_ms=20000):
     """-> per program: list of answer lines, one per process (the processes run side by side: a VM run
     mostly sleeps in its wait loop)"""
     from concurrent.futures import ThreadPoolExecutor
-    lines = [mod_line("repeat", m, f"(n {n})") for m in mods_list]
+    lines = [mod_line("repeat", m, f"(n {n}) (timeout {timeout_ms})") for m in mods_list]
     size = max(1, (len(lines) + 3) // 4)
     chunks = [(i, lines[i:i + size]) for i in range(0, len(lines), size)]
     jobs = [(p, i, ch) for p in range(procs) for i, ch in chunks]
@@ -65,6 +65,11 @@ def stable_part(line):
 def judge(ctx, programs, n, procs, label):
     res = repeat_all([p[0] for p in programs], n, procs)
     for (mods, feats), answers in zip(programs, res):
+        if any(" TERM " in a or "=TERM " in a or a.startswith("HANG") for a in answers):
+            # the harness's own wall-clock guard fired (loaded machine): re-run alone, one process at a time,
+            # with a generous limit before judging
+            ctx.coverage["rerun_after_timeout"] = ctx.coverage.get("rerun_after_timeout", 0) + 1
+            answers = [repeat_all([mods], n, 1, workers=1, timeout_ms=120000)[0][0] for _ in range(procs)]
         rep = {"kind": "repeat", "mods": mods, "n": n, "procs": procs}
         ctx.count(case_key=mods, nontrivial=True)
         for ft in feats:
